@@ -3,6 +3,7 @@ package c10
 import (
 	"encoding/json"
 	"fmt"
+	"math"
 	"strings"
 	"sync"
 	"testing"
@@ -187,6 +188,11 @@ func gen(t *rapid.T) (*scen.Scenario, []string) {
 	}
 	sc.RPC.Steps = steps
 	sc.GoMaxProcs = rapid.SampledFrom([]int{1, 2, 16}).Draw(t, "gomaxprocs")
+	if rapid.IntRange(0, 3).Draw(t, "oldsession") == 0 {
+		// a server session that has sent a billion messages: its seq_no passes 2^31 during this history
+		sc.RPC.ServerSeqStart = int32(math.MaxInt32 - 1 - 2*rapid.IntRange(0, 5).Draw(t, "seqleft"))
+		cls = append(cls, "server-history:seq_no-passes-2^31")
+	}
 	if ncallers >= 2 {
 		cls = append(cls, "concurrent-callers")
 	}
